@@ -39,6 +39,10 @@ class Quiescence(object):
         s = rec["after"]
         if op["op"] == "req" and op["status"] in ("pausing", "paused") and not rec["rejected"]:
             self.pause_seen = True
+        if op["op"] in ("req", "rerun") and not rec["rejected"] and (op["op"] == "rerun" or op["status"] in ("resuming", "running")):
+            # an accepted resume (or rerun) uses the pause request up: being paused afterwards needs a new one
+            self.pause_seen = False
+            self.dormant_seen = bool(drv.dormant)
         if drv.dormant:
             self.dormant_seen = True
         if drv.inflight:
@@ -101,7 +105,7 @@ def run(scn, stats):
 
 CFG = gen.cfg(items=0.2, retry=0.2, retry_cmd=True, p_loop=0.3)
 FLAGS = {"pause": 1, "pending": 1}
-CONTROLS = {"pause": 2, "pause2": 1, "resume": 2, "cancel": 1}
+CONTROLS = {"pause": 2, "pause2": 1, "resume": 2, "cancel": 1, "pause+resume": 1, "pause+resume+cancel": 1}
 
 
 def strategy(tier):
